@@ -7,6 +7,7 @@ mod c04;
 mod c06;
 mod cmodel;
 mod oracle;
+mod c07;
 mod c08;
 mod c10;
 mod tok;
@@ -180,6 +181,7 @@ fn main() {
         "C04" => c04::run(&ctx),
         "C05" => c0235::run_c05(&ctx),
         "C06" => c06::run(&ctx),
+        "C07" => c07::run(&ctx),
         "C08" => c08::run(&ctx),
         "C10" => c10::run(&ctx),
         "C11" => c11::run(&ctx),
